@@ -549,6 +549,7 @@ def _gen_spec(rng, cls, tier):
             a_in = a_out * ar
             b_in = None
             if rng.random() < 0.4:
+                spec['explicit_inner'] = True
                 b_in = b_out * float(rng.uniform(0.1, 0.95)) if cls != 'lattice' else b_out * 0.5
             spec['prm'] = {'a_in': a_in, 'a_out': a_out, 'b_out': b_out, 'b_in': b_in}
         else:
@@ -561,6 +562,7 @@ def _gen_spec(rng, cls, tier):
             w_in = w * ar
             h_in = None
             if rng.random() < 0.4:
+                spec['explicit_inner'] = True
                 h_in = h * float(rng.uniform(0.1, 0.95)) if cls != 'lattice' else h * 0.5
             spec['prm'] = {'w_in': w_in, 'w_out': w, 'h_out': h, 'h_in': h_in}
         else:
@@ -596,7 +598,7 @@ def _gen_spec(rng, cls, tier):
         spec['special'] = special
     # positions
     npos = 0                                            # scalar
-    if cls == 'multi' or rng.random() < 0.12:
+    if cls == 'multi' or rng.random() < 0.2:
         npos = int(rng.integers(1, 6))
     if cls == 'inplace':
         npos = int(rng.integers(2, 6))
@@ -649,24 +651,227 @@ def _ref_area(outer, inner):
     return one(outer) - (one(inner) if inner is not None else 0.0)
 
 
+def _pos_form(form, pos):
+    """positions (float ndarray, shape (2,) or (N, 2)) in the drawn call form."""
+    if form is None or form == 'float_array':
+        return np.array(pos, dtype=float)
+    if pos.ndim == 1:
+        x, y = float(pos[0]), float(pos[1])
+        return {'tuple': (x, y), 'list': [x, y], 'list_of_numpy_scalars': [np.float64(x), np.float64(y)],
+                'int_array': np.array([int(x), int(y)]), 'int_tuple': (int(x), int(y)),
+                'float32_array': np.array([x, y], dtype=np.float32),
+                'bigendian_array': np.array([x, y], dtype='>f8'),
+                'strided_view': np.array([x, -1.0, y, -1.0])[::2]}[form]
+    if form == 'list_of_tuples':
+        return [(float(a), float(b)) for a, b in pos]
+    if form == 'tuple_of_tuples':
+        return tuple((float(a), float(b)) for a, b in pos)
+    if form == 'list_of_lists':
+        return [[float(a), float(b)] for a, b in pos]
+    if form == 'zip':
+        return zip([float(a) for a in pos[:, 0]], [float(b) for b in pos[:, 1]])
+    if form == 'int_array':
+        return np.array(pos).astype(np.int64)
+    if form == 'float32_array':
+        return np.array(pos, dtype=np.float32)
+    if form == 'bigendian_array':
+        return np.array(pos, dtype='>f8')
+    if form == 'fortran_array':
+        return np.asfortranarray(np.array(pos, dtype=float))
+    if form == 'transposed_view':
+        return np.array([pos[:, 0], pos[:, 1]], dtype=float).T
+    if form == 'strided_view':
+        big = np.full((2 * len(pos), 4), -7.0)
+        big[::2, 1:3] = pos
+        return big[::2, 1:3]
+    raise ValueError(form)
+
+
+def _scalar_form(form, v):
+    if v is None or form is None or form == 'float':
+        return v
+    return {'np.float64': np.float64, 'np.float32': np.float32, 'int': int, 'np.int64': np.int64}[form](v)
+
+
+def _theta_form(form, theta):
+    import astropy.units as u
+    from astropy.coordinates import Angle
+    if form == 'np.float64':
+        return np.float64(theta)
+    if form == 'int':
+        return int(theta)
+    if form == 'np.int64':
+        return np.int64(theta)
+    if form == 'np.float32':
+        return np.float32(theta)
+    if form == 'quantity_rad':
+        return theta * u.rad
+    if form == 'quantity_deg':
+        return (theta * u.rad).to(u.deg)
+    if form == 'quantity_arcmin':
+        return (theta * u.rad).to(u.arcmin)
+    if form == 'angle_deg':
+        return Angle((theta * u.rad).to(u.deg))
+    if form == 'angle_hourangle':
+        return Angle((theta * u.rad).to(u.hourangle))
+    raise ValueError(form)
+
+
 def _build(spec, positions=None):
     from photutils import aperture as A
-    p = spec['prm']
-    pos = spec['positions'] if positions is None else positions
-    pos = np.array(pos, dtype=float)
-    if spec['fam'] == 'circle':
-        if spec['annulus']:
-            return A.CircularAnnulus(pos, r_in=p['r_in'], r_out=p['r_out'])
-        return A.CircularAperture(pos, r=p['r'])
+    forms = spec.get('forms') or {}
+    sf = forms.get('scalars')
+    p = {k: _scalar_form(sf, v) for k, v in spec['prm'].items()}
+    if positions is None:
+        pos = _pos_form(forms.get('positions'), np.array(spec['positions'], dtype=float))
+    else:
+        pos = np.array(positions, dtype=float)
+    positional = bool(forms.get('positional'))
     th = spec['theta_arg']
-    if spec['fam'] == 'ellipse':
-        if spec['annulus']:
+    fam, ann = spec['fam'], spec['annulus']
+    if fam == 'circle':
+        if ann:
+            return A.CircularAnnulus(pos, p['r_in'], p['r_out']) if positional else \
+                A.CircularAnnulus(positions=pos, r_in=p['r_in'], r_out=p['r_out'])
+        return A.CircularAperture(pos, p['r']) if positional else A.CircularAperture(positions=pos, r=p['r'])
+    if fam == 'ellipse':
+        if ann:
+            if positional:
+                return A.EllipticalAnnulus(pos, p['a_in'], p['a_out'], p['b_out'], p['b_in'], th)
             return A.EllipticalAnnulus(pos, a_in=p['a_in'], a_out=p['a_out'], b_out=p['b_out'], b_in=p['b_in'],
                                        theta=th)
-        return A.EllipticalAperture(pos, a=p['a'], b=p['b'], theta=th)
-    if spec['annulus']:
+        return A.EllipticalAperture(pos, p['a'], p['b'], th) if positional else \
+            A.EllipticalAperture(pos, a=p['a'], b=p['b'], theta=th)
+    if ann:
+        if positional:
+            return A.RectangularAnnulus(pos, p['w_in'], p['w_out'], p['h_out'], p['h_in'], th)
         return A.RectangularAnnulus(pos, w_in=p['w_in'], w_out=p['w_out'], h_out=p['h_out'], h_in=p['h_in'], theta=th)
-    return A.RectangularAperture(pos, w=p['w'], h=p['h'], theta=th)
+    return A.RectangularAperture(pos, p['w'], p['h'], th) if positional else \
+        A.RectangularAperture(pos, w=p['w'], h=p['h'], theta=th)
+
+
+def _draw_axes(case, spec, cls):
+    """GENERIC AXES drawn independently of the generator class (tools/generic_axes.txt): coordinate magnitude, call
+    form of every argument, array layout/dtype of positions, shapes much smaller than a pixel on a pixel edge/corner.
+    The spec keeps the VALUES the library receives (after float32 / integer conversion) so that the reference judges
+    the shape that was actually requested.  About half of the cases stay plain."""
+    import astropy.units as u
+    rng = case.rng
+    forms = {}
+    plain = True
+    special = cls in ('corner', 'tangent', 'vertex', 'lattice', 'near_lattice')
+    # (vi) degenerate: shape much smaller than a pixel sitting on a pixel edge / corner
+    if rng.random() < (0.02 if special else 0.05):
+        plain = False
+        big = max(v for v in spec['prm'].values() if v is not None)
+        f = _loguniform(rng, 0.01, 0.3) / big
+        spec['prm'] = {k: (None if v is None else v * f) for k, v in spec['prm'].items()}
+        where = ['edge_x', 'edge_y', 'corner'][int(rng.integers(0, 3))]
+
+        def on_edge():
+            off = float(rng.choice([0.0, 0.0, 1e-12, -1e-12, 1e-9, -1e-9, big * f, -big * f, 0.5 * big * f]))
+            return float(rng.integers(-3, 30)) + 0.5 + off
+        pts = np.atleast_2d(np.array(spec['positions'], dtype=float))
+        for row in pts:
+            if where in ('edge_x', 'corner'):
+                row[0] = on_edge()
+            if where in ('edge_y', 'corner'):
+                row[1] = on_edge()
+        spec['positions'] = pts.tolist() if spec['npos'] else pts[0].tolist()
+        spec['special'] = f'sub-pixel shape on pixel {where}'
+        case.note('axis:degenerate:subpixel_shape_on_pixel_' + where)
+    # (i) coordinate magnitude: far from the origin / negative, float64 still resolves sub-pixel offsets
+    if rng.random() < (0.05 if special else 0.12):
+        plain = False
+        pts = np.atleast_2d(np.array(spec['positions'], dtype=float))
+        k = [float(rng.choice([-1, 1])) * float(np.round(10 ** float(rng.uniform(6, 9)))) for _ in range(2)]
+        if rng.random() < 0.3:
+            k[int(rng.integers(0, 2))] = 0.0
+        pts = pts + np.array(k)
+        spec['positions'] = pts.tolist() if spec['npos'] else pts[0].tolist()
+        case.note('axis:magnitude:positions_1e6_to_1e9')
+        if min(k) < 0:
+            case.note('axis:magnitude:negative_positions')
+    # (ii) call form of the shape scalars
+    if rng.random() < 0.15:
+        vals = [v for v in spec['prm'].values() if v is not None]
+        form = ['np.float64', 'np.float32', 'int', 'np.int64'][int(rng.integers(0, 4))]
+        if form in ('int', 'np.int64'):
+            new = {k_: (None if v is None else float(max(1, round(v)))) for k_, v in spec['prm'].items()}
+            ok = min(vals) >= 0.6
+            for lo_, hi_ in (('r_in', 'r_out'), ('a_in', 'a_out'), ('b_in', 'b_out'), ('w_in', 'w_out'),
+                             ('h_in', 'h_out')):
+                if lo_ in new and hi_ in new and new[lo_] is not None and not new[lo_] < new[hi_]:
+                    ok = False
+            if 'a' in new and new['b'] > new['a']:
+                ok = False
+            if ok and not special:
+                spec['prm'] = new
+                forms['scalars'] = form
+        elif form == 'np.float32':
+            new = {k_: (None if v is None else float(np.float32(v))) for k_, v in spec['prm'].items()}
+            ok = True
+            for lo_, hi_ in (('r_in', 'r_out'), ('a_in', 'a_out'), ('b_in', 'b_out'), ('w_in', 'w_out'),
+                             ('h_in', 'h_out')):
+                if lo_ in new and hi_ in new and new[lo_] is not None and not new[lo_] < new[hi_]:
+                    ok = False
+            if ok:
+                spec['prm'] = new
+                forms['scalars'] = form
+        else:
+            forms['scalars'] = form
+        if 'scalars' in forms:
+            plain = False
+            case.note('axis:call_form:scalars:' + forms['scalars'])
+    # (ii) call form of theta
+    if spec['fam'] != 'circle' and rng.random() < 0.2:
+        form = ['np.float64', 'np.float32', 'int', 'np.int64', 'quantity_rad', 'quantity_deg', 'quantity_arcmin',
+                'angle_deg', 'angle_hourangle'][int(rng.integers(0, 9))]
+        th = spec['theta']
+        if form in ('int', 'np.int64'):
+            th = float(int(rng.integers(-6, 7)))
+            if special:
+                form = 'np.float64'
+                th = spec['theta']
+        arg = _theta_form(form, th)
+        spec['theta_arg'] = arg
+        spec['theta'] = float(arg.to_value(u.rad)) if hasattr(arg, 'unit') else float(arg)
+        spec['tdesc'] = form
+        forms['theta'] = form
+        plain = False
+        case.note('axis:call_form:theta:' + form)
+    # (ii)/(iii) call form, dtype and memory layout of positions
+    if rng.random() < 0.2:
+        pts = np.array(spec['positions'], dtype=float)
+        if pts.ndim == 1:
+            form = ['tuple', 'list', 'list_of_numpy_scalars', 'int_array', 'int_tuple', 'float32_array',
+                    'bigendian_array', 'strided_view'][int(rng.integers(0, 8))]
+        else:
+            form = ['list_of_tuples', 'tuple_of_tuples', 'list_of_lists', 'zip', 'int_array', 'float32_array',
+                    'bigendian_array', 'fortran_array', 'transposed_view', 'strided_view'][int(rng.integers(0, 10))]
+        if form.startswith('int'):
+            pts = np.round(pts)
+        elif form == 'float32_array':
+            pts = pts.astype(np.float32).astype(float)
+        spec['positions'] = pts.tolist()
+        forms['positions'] = form
+        plain = False
+        case.note('axis:call_form:positions:' + form)
+    if rng.random() < 0.08:
+        forms['positional'] = True
+        plain = False
+        case.note('axis:call_form:positional_arguments')
+    spec['forms'] = forms
+    case.note('axis:plain_case' if plain else 'axis:some_axis_drawn')
+    # (v) option combinations actually occurring together
+    combo = [spec['method']]
+    if spec['annulus']:
+        combo.append('annulus_explicit_inner' if spec.get('explicit_inner') else 'annulus')
+    if spec['npos']:
+        combo.append('multi')
+    if len(combo) >= 3:
+        case.note('axis:options:' + '+'.join(combo))
+    return spec
 
 
 def _spec_params(spec):
@@ -842,8 +1047,9 @@ def _judge_weights(case, data, box, spec, xc, yc, outer, inner, method, s, mech,
             s_eff = 32
         else:
             s_eff = s
-        state = _state_for_sampling(box, xc, yc, outer, inner)
-        res = G.sampled_bounds(box, xc, yc, s_eff, outer, inner, eps=TIE_EPS, state=state, max_points=12_000_000)
+        eps_s = TIE_EPS + 4 * max(math.ulp(abs(xc)), math.ulp(abs(yc)))      # scales with the coordinate magnitude
+        state = _state_for_sampling(box, xc, yc, outer, inner, eps_s)
+        res = G.sampled_bounds(box, xc, yc, s_eff, outer, inner, eps=eps_s, state=state, max_points=12_000_000)
         if res is None:
             case.note('sampling_reference_too_large')
             return False
@@ -892,21 +1098,22 @@ def _judge_weights(case, data, box, spec, xc, yc, outer, inner, method, s, mech,
     return nontriv
 
 
-def _state_for_sampling(box, xc, yc, outer, inner):
+def _state_for_sampling(box, xc, yc, outer, inner, eps=TIE_EPS):
     """+1 pixel entirely inside the (annular) shape, -1 entirely outside of it, 0 needs sampling.
     Only certain classifications (margin > tie band) are used."""
     def st(sh):
         k, q = sh
         if k == 'circle':
-            _, s_ = G.exact_fractions(box, xc, yc, q['r'] * (1 - 4e-9) - 2e-9)
-            _, s2 = G.exact_fractions(box, xc, yc, q['r'] * (1 + 4e-9) + 2e-9)
+            _, s_ = G.exact_fractions(box, xc, yc, max(q['r'] * (1 - 4e-9) - 2 * eps, 1e-300))
+            _, s2 = G.exact_fractions(box, xc, yc, q['r'] * (1 + 4e-9) + 2 * eps)
             return np.where(s_ == 1, 1, np.where(s2 == -1, -1, 0))
         if k == 'ellipse':
-            _, s_ = G.exact_fractions(box, xc, yc, q['a'] * (1 - 4e-9) - 2e-9, max(q['b'] * (1 - 4e-9) - 2e-9, 1e-300),
+            _, s_ = G.exact_fractions(box, xc, yc, max(q['a'] * (1 - 4e-9) - 2 * eps, 1e-300),
+                                      max(q['b'] * (1 - 4e-9) - 2 * eps, 1e-300), q['theta'])
+            _, s2 = G.exact_fractions(box, xc, yc, q['a'] * (1 + 4e-9) + 2 * eps, q['b'] * (1 + 4e-9) + 2 * eps,
                                       q['theta'])
-            _, s2 = G.exact_fractions(box, xc, yc, q['a'] * (1 + 4e-9) + 2e-9, q['b'] * (1 + 4e-9) + 2e-9, q['theta'])
             return np.where(s_ == 1, 1, np.where(s2 == -1, -1, 0))
-        return G.rect_state(box, xc, yc, q['w'], q['h'], q['theta'], 2 * TIE_EPS)
+        return G.rect_state(box, xc, yc, q['w'], q['h'], q['theta'], 2 * eps)
     so = st(outer)
     if inner is None:
         return so
@@ -925,6 +1132,14 @@ def _judge_image_ops(case, mask, box, rng, mech, shapes):
         ys, xs = G.common_pixels(box, shape)
         empty = not ys or not xs
         degenerate = shape[0] == 0 or shape[1] == 0
+        if min(shape) == 1 and max(shape) > 1:
+            case.note('axis:shape:1xN_or_Nx1')
+        if min(shape) >= 1 and max(shape) >= 30 * min(shape):
+            case.note('axis:shape:strongly_elongated')
+        if empty and not degenerate:
+            case.note('axis:degenerate:aperture_entirely_off_image')
+        elif not degenerate and len(ys) * len(xs) < ny * nx:
+            case.note('axis:degenerate:partial_overlap')
         sl, ss = mask.get_overlap_slices(shape)
         m = dict(mech, op='get_overlap_slices')
         if degenerate:
@@ -996,8 +1211,12 @@ def _image_shapes(rng, box, n, hostile=False):
     """image shapes incl. 1xN; the box straddles / misses / contains them."""
     out = []
     for _ in range(n):
-        k = int(rng.integers(0, 6))
-        if k == 0:
+        k = int(rng.integers(0, 8))
+        if k == 6:
+            shp = (int(rng.integers(1, 4)), int(rng.integers(100, 3000)))       # strongly elongated
+        elif k == 7:
+            shp = (int(rng.integers(100, 3000)), int(rng.integers(1, 4)))
+        elif k == 0:
             shp = (1, int(rng.integers(1, 65)))
         elif k == 1:
             shp = (int(rng.integers(1, 65)), 1)
@@ -1094,7 +1313,9 @@ def run_case(case):
 def _case_aperture(case):
     rng, cls = case.rng, case.cls
     spec = _gen_spec(rng, cls, case.tier)
+    spec = _draw_axes(case, spec, cls)
     case.params = _spec_params(spec)
+    case.params['forms'] = dict(spec['forms'])
     case.digest = core.digest([cls, case.params])
     method, s = spec['method'], spec['subpixels']
     methods = [(method, s)]
@@ -1143,6 +1364,21 @@ def _method_relations(case, aper, spec):
     if spec['fam'] == 'rect':
         case.check(same(data(method='exact'), data(method='subpixel', subpixels=32)),
                    'rect_exact_is_subpixel_32', mech)
+    # call forms the library rejects: Quantity positions (explicit TypeError); 0-d arrays for scalars (docs silent:
+    # counted, not judged)
+    import astropy.units as u
+    kw = {nm: getattr(aper, nm) for nm in aper._params}
+    try:
+        type(aper)(**dict(kw, positions=np.array(aper.positions) * u.pix))
+        case.check(False, 'quantity_positions_rejected', mech)
+    except TypeError:
+        case.check(True, 'quantity_positions_rejected', mech)
+    first = [nm for nm in aper._params if nm not in ('positions', 'theta')][-1]
+    try:
+        type(aper)(**dict(kw, **{first: np.array(float(kw[first]))}))
+        case.note('axis:call_form:0d_array_scalar_accepted')
+    except ValueError:
+        case.note('axis:call_form:0d_array_scalar_rejected_ValueError')
     for bad in ({'method': 'nearest'}, {'method': 'subpixel', 'subpixels': 0}, {'method': 'subpixel', 'subpixels': -3},
                 {'method': 'subpixel', 'subpixels': 2.5}):
         try:
@@ -1183,6 +1419,7 @@ def _case_reassign(case, aper, spec, methods):
     names = [k for k, v in new['prm'].items() if v is not None]
     which = [n for n in names if rng.random() < 0.6] or [names[0]]
     merged = dict(spec)
+    merged['forms'] = {}
     merged['prm'] = dict(spec['prm'])
     # default (None) inner sizes were resolved by the constructor: keep the resolved value unless re-assigned
     for kk in ('b_in', 'h_in'):
@@ -1248,7 +1485,7 @@ def _reported_spec(obj, spec, extra):
     pos = np.array(obj.positions, dtype=float, copy=True)
     out = dict(spec)
     out.update(prm=prm, theta=th, theta_arg=th, tdesc='reported', positions=pos.tolist(),
-               npos=0 if pos.ndim == 1 else len(pos), special=None, _mech_extra=extra)
+               npos=0 if pos.ndim == 1 else len(pos), special=None, _mech_extra=extra, forms={})
     return out
 
 
